@@ -362,6 +362,15 @@ fn sweep05(part: usize, parts: usize) -> impl Iterator<Item = Case05> {
     ];
     let mut p4 = p3.clone();
     p4.ccrsp.blocks[1] = refimpl::gcc::ScBlock::SecurityFull { method: 0, level: 0, random: vec![], cert: vec![] };
+    // the BER part of the connect response: every TLV header with its length in every long form of 1..8 octets (true value, all
+    // ones, 0x7F.., 0x80 00.., one too many), indefinite and reserved; the TPKT length follows the new size
+    {
+        let profile = ServerProfile::simple(1004, 0x000103EA);
+        let cr = &setup_messages(&profile)[0];
+        for m in wire::der_length_mutations(&cr.bytes, 7) {
+            v.push(Case05::Conn { profile: profile.clone(), fault: Fault { message: 0, kind: FaultKind::ReplaceBody(m[4..].to_vec()), kind2: None } });
+        }
+    }
     for profile in [ServerProfile::simple(1004, 0x000103EA), p2, p3, p4] {
         let built = setup_messages(&profile);
         for (mi, b) in built.iter().enumerate() {
